@@ -10,35 +10,53 @@ package c20
 
 import (
 	"crypto/cipher"
+	"crypto/ecdsa"
 	"crypto/hmac"
 	"crypto/sha256"
+	"crypto/x509"
+	"crypto/x509/pkix"
 	"encoding/hex"
 	"fmt"
 	"hash"
+	"math/big"
+	"time"
 
 	"github.com/emmansun/gmsm/cbcmac"
 	gcipher "github.com/emmansun/gmsm/cipher"
 	"github.com/emmansun/gmsm/drbg"
+	"github.com/emmansun/gmsm/ecdh"
 	"github.com/emmansun/gmsm/kdf"
 	"github.com/emmansun/gmsm/padding"
+	"github.com/emmansun/gmsm/pkcs"
+	"github.com/emmansun/gmsm/pkcs7"
+	"github.com/emmansun/gmsm/pkcs8"
+	"github.com/emmansun/gmsm/sm2"
 	"github.com/emmansun/gmsm/sm3"
 	"github.com/emmansun/gmsm/sm4"
+	"github.com/emmansun/gmsm/sm9"
+	"github.com/emmansun/gmsm/smx509"
 	"github.com/emmansun/gmsm/zuc"
 
 	"verif/engine"
 )
 
-type acc struct{ h hash.Hash }
+type acc struct {
+	h    hash.Hash
+	errs []string
+}
 
-func newAcc() *acc { return &acc{sha256.New()} }
+func newAcc() *acc { return &acc{h: sha256.New()} }
 func (a *acc) add(label string, b []byte, err error) {
 	if err != nil {
 		fmt.Fprintf(a.h, "%s=err:%v;", label, err)
+		a.errs = append(a.errs, label)
 		return
 	}
 	fmt.Fprintf(a.h, "%s=%x;", label, b)
 }
-func (a *acc) sum() string { return hex.EncodeToString(a.h.Sum(nil)[:12]) }
+func (a *acc) sum() string {
+	return hex.EncodeToString(a.h.Sum(nil)[:12]) + fmt.Sprintf(" errors=%v", a.errs)
+}
 
 func pat(seed, n int) []byte {
 	b := engine.Pattern(3, n+seed+1)
@@ -304,9 +322,10 @@ func s19() scenario {
 		ent, nonce, pers := pat(seed+20, 48), pat(seed+21, 24), pat(seed+22, 10)
 		out := make([]byte, 80)
 		if d, err := drbg.NewGMHashDrbg(drbg.SECURITY_LEVEL_ONE, ent[:32], nonce[:16], pers); err == nil {
+			out := out[:min(len(out), d.MaxBytesPerRequest())]
 			a.add("drbg-gm-hash", out, d.Generate(out, nil))
 			a.add("drbg-gm-hash-reseed", nil, d.Reseed(ent[:32], pers))
-			a.add("drbg-gm-hash-2", out[:33], d.Generate(out[:33], msg[:7]))
+			a.add("drbg-gm-hash-2", out[:17], d.Generate(out[:17], msg[:7]))
 		} else {
 			a.add("drbg-gm-hash", nil, err)
 		}
@@ -319,12 +338,258 @@ func s19() scenario {
 			a.add("drbg-hmac-2", out[:50], d.Generate(out[:50], nil))
 		}
 		if d, err := drbg.NewGMCtrDrbg(drbg.SECURITY_LEVEL_ONE, ent[:32], nonce[:16], pers); err == nil {
+			out := out[:min(len(out), d.MaxBytesPerRequest())]
 			a.add("drbg-gm-ctr", out, d.Generate(out, nil))
 			a.add("drbg-gm-ctr-reseed", nil, d.Reseed(ent[:32], pers))
-			a.add("drbg-gm-ctr-2", out[:17], d.Generate(out[:17], msg[:9]))
+			a.add("drbg-gm-ctr-2", out[:9], d.Generate(out[:9], msg[:9]))
 		} else {
 			a.add("drbg-gm-ctr", nil, err)
 		}
+		return a.sum()
+	})
+}
+
+// ---- S20: independent SM2 / ECDH keys, one set per thread
+
+func s20() scenario {
+	return independent("S20-sm2-ecdh-independent-objects", func(seed int) string {
+		a := newAcc()
+		key, err := sm2.NewPrivateKey(fixedScalar(byte(40 + seed)))
+		if err != nil {
+			return "err:" + err.Error()
+		}
+		peer, _ := sm2.NewPrivateKey(fixedScalar(byte(50 + seed)))
+		msg := pat(seed+1, 70)
+		dig := pat(seed+2, 32)
+		lane := byte(100 + 10*seed)
+		sig, err := key.Sign(&engine.DetReader{Lane: lane}, dig, nil)
+		a.add("sign", sig, err)
+		a.add("verify", []byte(fmt.Sprint(sm2.VerifyASN1(&key.PublicKey, dig, sig), sm2.VerifyASN1(&peer.PublicKey, dig, sig))), nil)
+		uid := pat(seed+3, 9)
+		sig2, err := key.Sign(&engine.DetReader{Lane: lane + 1}, msg, sm2.NewSM2SignerOption(true, uid))
+		a.add("sign-uid", sig2, err)
+		a.add("verify-uid", []byte(fmt.Sprint(sm2.VerifyASN1WithSM2(&key.PublicKey, uid, msg, sig2), sm2.VerifyASN1WithSM2(&key.PublicKey, nil, msg, sig2))), nil)
+		za, err := sm2.CalculateZA(&key.PublicKey, uid)
+		a.add("za", za, err)
+		ct, err := sm2.Encrypt(&engine.DetReader{Lane: lane + 2}, &key.PublicKey, msg, nil)
+		a.add("encrypt", ct, err)
+		pt, err := key.Decrypt(nil, ct, nil)
+		a.add("decrypt", pt, err)
+		ct2, err := sm2.EncryptASN1(&engine.DetReader{Lane: lane + 3}, &key.PublicKey, msg[:33])
+		a.add("encrypt-asn1", ct2, err)
+		pt2, err := key.Decrypt(nil, ct2, sm2.ASN1DecrypterOpts)
+		a.add("decrypt-asn1", pt2, err)
+		plain, err := sm2.ASN1Ciphertext2Plain(ct2, nil)
+		a.add("asn1-to-plain", plain, err)
+		back, err := sm2.PlainCiphertext2ASN1(ct, sm2.C1C3C2)
+		a.add("plain-to-asn1", back, err)
+		// key exchange, both roles in this thread
+		ini, err1 := sm2.NewKeyExchange(key, &peer.PublicKey, uid, msg[:5], 48, true)
+		rsp, err2 := sm2.NewKeyExchange(peer, &key.PublicKey, msg[:5], uid, 48, true)
+		if err1 == nil && err2 == nil {
+			ra, err := ini.InitKeyExchange(&engine.DetReader{Lane: lane + 4})
+			if err == nil {
+				rb, sb, err := rsp.RepondKeyExchange(&engine.DetReader{Lane: lane + 5}, ra)
+				if err == nil {
+					ka, sa, err := ini.ConfirmResponder(rb, sb)
+					a.add("kx-initiator", append(ka, sa...), err)
+					kb, err := rsp.ConfirmInitiator(sa)
+					a.add("kx-responder", kb, err)
+				} else {
+					a.add("kx-respond", nil, err)
+				}
+			} else {
+				a.add("kx-init", nil, err)
+			}
+		}
+		// ecdh package
+		ek, err := ecdh.P256().NewPrivateKey(fixedScalar(byte(60 + seed)))
+		if err == nil {
+			ep, _ := ecdh.P256().NewPrivateKey(fixedScalar(byte(70 + seed)))
+			sh, err := ek.ECDH(ep.PublicKey())
+			a.add("ecdh", sh, err)
+			e1, _ := ecdh.P256().NewPrivateKey(fixedScalar(byte(80 + seed)))
+			e2, _ := ecdh.P256().NewPrivateKey(fixedScalar(byte(90 + seed)))
+			uv, err := ek.SM2MQV(e1, ep.PublicKey(), e2.PublicKey())
+			if err == nil {
+				k, err := uv.SM2SharedKey(false, 40, ek.PublicKey(), ep.PublicKey(), uid, msg[:7])
+				a.add("mqv-key", k, err)
+			} else {
+				a.add("mqv", nil, err)
+			}
+			z, err := ek.PublicKey().SM2ZA(sm3.New(), uid)
+			a.add("ecdh-za", z, err)
+		} else {
+			a.add("ecdh-key", nil, err)
+		}
+		// key codecs
+		der, err := smx509.MarshalSM2PrivateKey(key)
+		a.add("sec1", der, err)
+		if k2, err := smx509.ParseSM2PrivateKey(der); err == nil {
+			a.add("sec1-parse", k2.D.Bytes(), nil)
+		} else {
+			a.add("sec1-parse", nil, err)
+		}
+		p8, err := smx509.MarshalPKCS8PrivateKey(key)
+		a.add("pkcs8", p8, err)
+		if k3, err := smx509.ParsePKCS8PrivateKey(p8); err == nil {
+			a.add("pkcs8-parse", k3.(*sm2.PrivateKey).D.Bytes(), nil)
+		} else {
+			a.add("pkcs8-parse", nil, err)
+		}
+		pk, err := smx509.MarshalPKIXPublicKey(&key.PublicKey)
+		a.add("pkix", pk, err)
+		if q, err := smx509.ParsePKIXPublicKey(pk); err == nil {
+			a.add("pkix-parse", q.(*ecdsa.PublicKey).X.Bytes(), nil)
+		} else {
+			a.add("pkix-parse", nil, err)
+		}
+		if pubs, err := sm2.RecoverPublicKeysFromSM2Signature(dig, sig); err == nil {
+			a.add("recover", []byte(fmt.Sprint(len(pubs))), nil)
+		} else {
+			a.add("recover", nil, err)
+		}
+		return a.sum()
+	})
+}
+
+// ---- S21: X.509 / PKCS#8 / PKCS#7 codecs, one PKI per thread
+
+func s21() scenario {
+	return independent("S21-x509-pkcs-codecs-independent-objects", func(seed int) string {
+		a := newAcc()
+		rootKey, _ := sm2.NewPrivateKey(fixedScalar(byte(110 + seed)))
+		leafKey, _ := sm2.NewPrivateKey(fixedScalar(byte(120 + seed)))
+		nb := time.Date(2020, 1, 1, 0, 0, 0, 0, time.UTC)
+		na := time.Date(2040, 1, 1, 0, 0, 0, 0, time.UTC)
+		lane := byte(160 + 20*seed)
+		rootT := &smx509.Certificate{SerialNumber: big.NewInt(int64(1000 + seed)), Subject: pkix.Name{CommonName: fmt.Sprintf("root %d", seed)}, NotBefore: nb, NotAfter: na,
+			IsCA: true, BasicConstraintsValid: true, KeyUsage: 32 | 64}
+		rootDER, err := smx509.CreateCertificate(&engine.DetReader{Lane: lane}, rootT, rootT, &rootKey.PublicKey, rootKey)
+		a.add("root", rootDER, err)
+		if err != nil {
+			return a.sum()
+		}
+		root, err := smx509.ParseCertificate(rootDER)
+		if err != nil {
+			return "err:" + err.Error()
+		}
+		leafT := &smx509.Certificate{SerialNumber: big.NewInt(int64(2000 + seed)), Subject: pkix.Name{CommonName: fmt.Sprintf("leaf%d.example", seed), Organization: []string{"verif"}},
+			NotBefore: nb, NotAfter: na, KeyUsage: 1 | 4 | 16, DNSNames: []string{fmt.Sprintf("leaf%d.example", seed)}, BasicConstraintsValid: true}
+		leafDER, err := smx509.CreateCertificate(&engine.DetReader{Lane: lane + 1}, leafT, root, &leafKey.PublicKey, rootKey)
+		a.add("leaf", leafDER, err)
+		leaf, err := smx509.ParseCertificate(leafDER)
+		if err != nil {
+			return "err:" + err.Error()
+		}
+		a.add("check-from", nil, leaf.CheckSignatureFrom(root))
+		pool := smx509.NewCertPool()
+		pool.AddCert(root)
+		ch, err := leaf.Verify(smx509.VerifyOptions{Roots: pool, CurrentTime: time.Date(2030, 1, 1, 0, 0, 0, 0, time.UTC), DNSName: leafT.DNSNames[0]})
+		a.add("verify", []byte(fmt.Sprint(len(ch))), err)
+		csrDER, err := smx509.CreateCertificateRequest(&engine.DetReader{Lane: lane + 2}, &x509.CertificateRequest{Subject: leafT.Subject, DNSNames: leafT.DNSNames}, leafKey)
+		a.add("csr", csrDER, err)
+		if csr, err := smx509.ParseCertificateRequest(csrDER); err == nil {
+			a.add("csr-check", nil, csr.CheckSignature())
+		} else {
+			a.add("csr-parse", nil, err)
+		}
+		crlDER, err := smx509.CreateRevocationList(&engine.DetReader{Lane: lane + 3}, &x509.RevocationList{Number: big.NewInt(int64(seed)), ThisUpdate: nb, NextUpdate: na,
+			RevokedCertificateEntries: []x509.RevocationListEntry{{SerialNumber: big.NewInt(77), RevocationTime: nb}}}, root, rootKey)
+		a.add("crl", crlDER, err)
+		if crl, err := smx509.ParseRevocationList(crlDER); err == nil {
+			a.add("crl-check", nil, crl.CheckSignatureFrom(root))
+		} else {
+			a.add("crl-parse", nil, err)
+		}
+		// PKCS#8 with password (PBES2, SM4-CBC, PBKDF2-HMAC-SM3), low iteration count
+		opts := &pkcs8.Opts{Cipher: pkcs.SM4CBC, KDFOpts: pkcs8.PBKDF2Opts{SaltSize: 8, IterationCount: 3, HMACHash: pkcs8.SM3}}
+		enc, err := pkcs8.MarshalPrivateKey(leafKey, []byte(fmt.Sprintf("pw%d", seed)), opts)
+		a.add("pkcs8-enc-ok", nil, err)
+		if err == nil {
+			k, err := pkcs8.ParsePKCS8PrivateKeySM2(enc, []byte(fmt.Sprintf("pw%d", seed)))
+			if err == nil {
+				a.add("pkcs8-dec", k.D.Bytes(), nil)
+			} else {
+				a.add("pkcs8-dec", nil, err)
+			}
+			_, err = pkcs8.ParsePKCS8PrivateKeySM2(enc, []byte("wrong"))
+			a.add("pkcs8-wrong-pw", []byte(fmt.Sprint(err != nil)), nil)
+		}
+		// PKCS#7: signatures and envelopes are randomised, only the verdicts are observed
+		content := pat(seed+5, 90)
+		if sd, err := pkcs7.NewSMSignedData(content); err == nil {
+			err = sd.AddSigner(leaf, leafKey, pkcs7.SignerInfoConfig{})
+			if err == nil {
+				p7, err := sd.Finish()
+				if err == nil {
+					if p, err := pkcs7.Parse(p7); err == nil {
+						a.add("p7-verify", p.Content, p.VerifyWithChainAtTime(pool, nil))
+					} else {
+						a.add("p7-parse", nil, err)
+					}
+				} else {
+					a.add("p7-finish", nil, err)
+				}
+			} else {
+				a.add("p7-addsigner", nil, err)
+			}
+		}
+		if env, err := pkcs7.EncryptSM(pkcs.SM4CBC, content, []*smx509.Certificate{leaf}); err == nil {
+			if p, err := pkcs7.Parse(env); err == nil {
+				pt, err := p.Decrypt(leaf, leafKey)
+				a.add("p7-decrypt", pt, err)
+			} else {
+				a.add("p7-env-parse", nil, err)
+			}
+		} else {
+			a.add("p7-encrypt", nil, err)
+		}
+		if e2, err := pkcs7.EncryptSMUsingPSK(pkcs.SM4GCM, content, pat(seed+6, 16)); err == nil {
+			if p, err := pkcs7.Parse(e2); err == nil {
+				pt, err := p.DecryptUsingPSK(pat(seed+6, 16))
+				a.add("p7-psk", pt, err)
+			}
+		}
+		return a.sum()
+	})
+}
+
+// ---- S22: SM9 master and user keys, one set per thread
+
+func s22() scenario {
+	return independent("S22-sm9-independent-objects", func(seed int) string {
+		a := newAcc()
+		lane := byte(210 + 20*seed)
+		uid := pat(seed+1, 6)
+		sm, err := sm9.GenerateSignMasterKey(&engine.DetReader{Lane: lane})
+		if err != nil {
+			return "err:" + err.Error()
+		}
+		su, err := sm.GenerateUserKey(uid, 1)
+		if err != nil {
+			return "err:" + err.Error()
+		}
+		dig := pat(seed+2, 32)
+		sig, err := su.Sign(&engine.DetReader{Lane: lane + 1}, dig, nil)
+		a.add("sign", sig, err)
+		a.add("verify", []byte(fmt.Sprint(sm9.VerifyASN1(sm.PublicKey(), uid, 1, dig, sig), sm9.VerifyASN1(sm.PublicKey(), uid, 1, dig[:31], sig))), nil)
+		em, err := sm9.GenerateEncryptMasterKey(&engine.DetReader{Lane: lane + 2})
+		if err != nil {
+			return "err:" + err.Error()
+		}
+		eu, err := em.GenerateUserKey(uid, 3)
+		if err != nil {
+			return "err:" + err.Error()
+		}
+		key, cipherDer, err := sm9.WrapKey(&engine.DetReader{Lane: lane + 3}, em.PublicKey(), uid, 3, 24)
+		a.add("wrap", append(key, cipherDer...), err)
+		k2, err := sm9.UnwrapKey(eu, uid, cipherDer, 24)
+		a.add("unwrap", k2, err)
+		ct, err := sm9.Encrypt(&engine.DetReader{Lane: lane + 4}, em.PublicKey(), uid, 3, pat(seed+3, 45), sm9.DefaultEncrypterOpts)
+		a.add("encrypt", ct, err)
+		pt, err := sm9.Decrypt(eu, uid, ct, sm9.DefaultEncrypterOpts)
+		a.add("decrypt", pt, err)
 		return a.sum()
 	})
 }
